@@ -211,5 +211,5 @@ def run(chk):
                           found_input=False)
     chk.coverage["exhaustive"] = False
     chk.coverage["rule"] = ("programs: 1-3 threads x 0-3 ovni_flush x {direct, OVNI_TMPDIR} x readdir order {native, sorted, reverse}; for each, ONE fault at "
-                            "EVERY intercepted libc call: ENOSPC, EIO, EACCES error returns, and short counts (half, 1, 0) for write/fwrite; "
+                            "EVERY intercepted libc call: ENOSPC, EIO, EACCES, ENOENT error returns, and short counts (half, 1, 0) for write/fwrite; "
                             "a case = (program, mode, order, call index, fault kind); all are distinct")
